@@ -32,7 +32,7 @@ static int parse_peak (const MEMF *m, int maj, int big, int ch, sf_count_t doff,
 
 static void peak_case (int format, int ch, int t, int seqkind, int part)
 {	MEMF m ; SNDFILE *s ; SF_INFO ri ; SF_VERIF_STATE st ; const char *fn = vh_fname (format) ; int maj = format & SF_FORMAT_TYPEMASK, isdbl = (format & SF_FORMAT_SUBMASK) == SF_FORMAT_DOUBLE ;
-	long N = 700 + vh_rint (5000), i, done ; int c, ts = vh_tsize [t] ; char *buf = vh_guard_alloc ((size_t) N * ch * 8, 0) ; double tmax [16] ; long tpos [16] ; char q [48] ;
+	long N = 700 + vh_rint (vh_thorough && vh_rint (4) == 0 ? 60000 : 5000), i, done ; int c, ts = vh_tsize [t] ; char *buf = vh_guard_alloc ((size_t) N * ch * 8, 0) ; double tmax [16] ; long tpos [16] ; char q [48] ;
 	snprintf (q, sizeof (q), "%s%s", (t == T_FLOAT && !isdbl) || (t == T_DOUBLE && isdbl) ? "" : "|converting-write", (2048 % ch) ? "|ch-not-dividing-2048" : "") ;
 	/* the sequence: background noise well below the planted per-channel maxima */
 	for (c = 0 ; c < ch ; c++) { tmax [c] = 0 ; tpos [c] = 0 ; }
@@ -81,21 +81,21 @@ static void peak_case (int format, int ch, int t, int seqkind, int part)
 }
 
 static void calc_case (int format, int ch)
-{	MEMF m ; SNDFILE *s, *s2 ; SF_INFO ri ; const char *fn = vh_fname (format) ; long N = 1500 + vh_rint (3000), F, i ; int c, k ; double *all, tn [16], tr [16], on = 0, orr = 0 ;
-	if (vh_make_file (&m, format, ch, 8000, N, 1)) { mv_free (&m) ; return ; }
+{	MEMF m ; SNDFILE *s, *s2 ; SF_INFO ri ; const char *fn = vh_fname (format) ; long N = 1500 + vh_rint (3000), F, i ; int c, k ; double *all, *seqref [2] = { NULL, NULL }, tn [16], tr [16], on = 0, orr = 0 ; long seqlen = 0 ;
+	if (vh_make_file (&m, format, ch, 8000, N, 1 + vh_rint (2))) { mv_free (&m) ; return ; }
 	s2 = vh_open_r (&m, format, ch, 8000, &ri) ; if (!s2) { mv_free (&m) ; return ; }
 	if (!ri.seekable) { sf_close (s2) ; mv_free (&m) ; vh_statf (1, "not_seekable:%s", fn) ; return ; }
-	F = (long) ri.frames ; all = malloc ((size_t) (F + 8) * ch * sizeof (double)) ;
+	F = (long) ri.frames ; all = malloc ((size_t) (F + 8) * ch * sizeof (double)) ; seqref [0] = calloc ((size_t) (F + 8) * ch, sizeof (double)) ; seqref [1] = calloc ((size_t) (F + 8) * ch, sizeof (double)) ;
 	/* the true maxima of the STORED samples, from an independent handle: normalised and raw */
 	for (k = 0 ; k < 2 ; k++)
-	{	long g ; sf_seek (s2, 0, SEEK_SET) ; sf_command (s2, SFC_SET_NORM_DOUBLE, NULL, k ? SF_FALSE : SF_TRUE) ; g = (long) sf_readf_double (s2, all, F) ;
+	{	long g ; sf_seek (s2, 0, SEEK_SET) ; sf_command (s2, SFC_SET_NORM_DOUBLE, NULL, k ? SF_FALSE : SF_TRUE) ; g = (long) sf_readf_double (s2, all, F) ; memcpy (seqref [k], all, (size_t) (g > 0 ? g : 0) * ch * sizeof (double)) ; seqlen = g ;
 		for (c = 0 ; c < ch ; c++) (k ? tr : tn) [c] = 0 ;
 		for (i = 0 ; i < g ; i++) for (c = 0 ; c < ch ; c++) { double a = fabs (all [i * ch + c]) ; if (a > (k ? tr : tn) [c]) (k ? tr : tn) [c] = a ; }
 		}
 	sf_close (s2) ; free (all) ;
 	for (c = 0 ; c < ch ; c++) { if (tn [c] > on) on = tn [c] ; if (tr [c] > orr) orr = tr [c] ; }
 	for (k = 0 ; k < 12 ; k++)
-	{	int prof = k % 4, cmdi = k / 4 ; long p0 = (k % 3 == 0) ? 0 : (k % 3 == 1) ? F / 2 : F ; double one = -1, per [16] ; SF_VERIF_STATE a, b ; int nd, nf ; short dummy [64] ;
+	{	int prof = k % 4, cmdi = k / 4 ; long p0 = (k % 3 == 0) ? 0 : (k % 3 == 1) ? (F > 2 ? 1 + vh_rint ((int) F - 1) : F / 2) : F ; double one = -1, per [16] ; SF_VERIF_STATE a, b ; int nd, nf ; short dummy [64] ;
 		s = vh_open_r (&m, format, ch, 8000, &ri) ; if (!s) break ;
 		sf_command (s, SFC_SET_NORM_DOUBLE, NULL, (prof & 1) ? SF_FALSE : SF_TRUE) ; sf_command (s, SFC_SET_NORM_FLOAT, NULL, (prof & 2) ? SF_FALSE : SF_TRUE) ;
 		if (p0) { if (sf_seek (s, p0, SEEK_SET) != p0) { sf_close (s) ; continue ; } } else sf_readf_short (s, dummy, 0) ;
@@ -109,36 +109,39 @@ static void calc_case (int format, int ch)
 		vh_state (s, &b) ; vh_stat ("calc_commands_checked", 1) ;
 		if (b.read_current != a.read_current) vh_viol (vh_key ("C18|calc-moves-position|%s", fn), "read position %lld before, %lld after the CALC command", (long long) a.read_current, (long long) b.read_current) ;
 		if (sf_command (s, SFC_GET_NORM_DOUBLE, NULL, 0) != nd || sf_command (s, SFC_GET_NORM_FLOAT, NULL, 0) != nf) vh_viol (vh_key ("C18|calc-changes-norm|%s", fn), "norm_double %d -> %d, norm_float %d -> %d across the CALC command", nd, sf_command (s, SFC_GET_NORM_DOUBLE, NULL, 0), nf, sf_command (s, SFC_GET_NORM_FLOAT, NULL, 0)) ;
-		/* and the next read really continues at p0 with the same scaling */
+		/* and the next read really continues at p0 with the same scaling: compared with a twin handle that went through the same calls without the CALC command */
 		{	double r1 [16], r2 [16] ; SNDFILE *s3 ; SF_INFO r3 ; sf_count_t g1 = sf_readf_double (s, r1, 1), g2 ;
-			s3 = vh_open_r (&m, format, ch, 8000, &r3) ; sf_command (s3, SFC_SET_NORM_DOUBLE, NULL, (prof & 1) ? SF_FALSE : SF_TRUE) ;
-			if (p0 && r3.seekable) sf_seek (s3, p0, SEEK_SET) ; g2 = sf_readf_double (s3, r2, 1) ; sf_close (s3) ;
-			if (g1 != g2 || (g1 == 1 && memcmp (r1, r2, ch * sizeof (double)))) vh_viol (vh_key ("C18|read-after-calc-differs|%s", fn), "the frame read after the CALC command at position %ld differs from the same read without the command", p0) ;
+			s3 = vh_open_r (&m, format, ch, 8000, &r3) ; sf_command (s3, SFC_SET_NORM_DOUBLE, NULL, (prof & 1) ? SF_FALSE : SF_TRUE) ; sf_command (s3, SFC_SET_NORM_FLOAT, NULL, (prof & 2) ? SF_FALSE : SF_TRUE) ;
+			if (p0) sf_seek (s3, p0, SEEK_SET) ; else sf_readf_short (s3, dummy, 0) ;
+			g2 = sf_readf_double (s3, r2, 1) ; sf_close (s3) ;
+			if (g1 != g2 || (g1 == 1 && memcmp (r1, r2, ch * sizeof (double)))) vh_viol (vh_key ("C18|read-after-calc-differs|%s", fn), "the frame read after the CALC command (command group %d, norm profile %d) at position %ld of %ld differs from the same read on a twin handle without the command: %lld frame(s) %.9g vs %lld frame(s) %.9g (sequential read of the file: %.9g)", cmdi, prof, p0, F, (long long) g1, r1 [0], (long long) g2, r2 [0], p0 < seqlen ? seqref [prof & 1][p0 * ch] : 0.0) ;
 			}
 		sf_close (s) ;
 		}
-	mv_free (&m) ;
+	free (seqref [0]) ; free (seqref [1]) ; mv_free (&m) ;
 }
 
 int main (int argc, char **argv)
-{	static const int majors [] = { SF_FORMAT_WAV, SF_FORMAT_WAVEX, SF_FORMAT_AIFF, SF_FORMAT_CAF, SF_FORMAT_RF64 } ; static const int chans [] = { 1, 2, 5, 8, 3 } ;
-	int a, b, c, t, sq, p, f ;
+{	static const int majors [] = { SF_FORMAT_WAV, SF_FORMAT_WAVEX, SF_FORMAT_AIFF, SF_FORMAT_CAF, SF_FORMAT_RF64 } ; static const int chans [] = { 1, 2, 5, 8, 3, 4, 6, 7 } ;
+	int a, b, c, t, sq, p, f, rep, nch, nrep ;
 	vh_init (argc, argv, "c18_peak_signal_max", "C18") ;
 	vh_enum_formats () ;
-	for (a = 0 ; a < 5 ; a++) for (b = 0 ; b < 2 ; b++) for (c = 0 ; c < 5 ; c++) for (t = 0 ; t < T_N ; t++) for (sq = 0 ; sq < 6 ; sq++) for (p = 0 ; p < 6 ; p++)
+	nch = vh_thorough ? 8 : 5 ; nrep = vh_thorough ? 60 : 8 ;
+	for (a = 0 ; a < 5 ; a++) for (b = 0 ; b < 2 ; b++) for (c = 0 ; c < nch ; c++) for (t = 0 ; t < T_N ; t++) for (sq = 0 ; sq < 6 ; sq++) for (p = 0 ; p < 6 ; p++) for (rep = 0 ; rep < nrep ; rep++)
 	{	int format = majors [a] | (b ? SF_FORMAT_DOUBLE : SF_FORMAT_FLOAT) ;
 		if (!vh_accepts (format, chans [c], 44100)) continue ;
-		if (!vh_case ("%s ch=%d write=%s seq=%d part=%d", vh_fname (format), chans [c], vh_tname [t], sq, p)) continue ;
+		if (rep > 0 && (p == 0 || p == 4) && sq == 5) continue ;		/* nothing random in these */
+		if (!vh_case ("%s ch=%d write=%s seq=%d part=%d rep=%d", vh_fname (format), chans [c], vh_tname [t], sq, p, rep)) continue ;
 		vh_distinct (vh_fnv (0, &format, 4) ^ ((uint64_t) chans [c] << 33) ^ ((uint64_t) t << 40) ^ ((uint64_t) sq << 44) ^ ((uint64_t) p << 48) ^ vh_rs) ;
 		vh_statf (1, "fmt:%s", vh_fname (format)) ;
-		if ((sq + p) % 5 == 2) vh_sample ("%s ch=%d: %s writes, sequence %d (0 max at first frame, 1 last frame, 2 at the 2048-item staging boundary, 3 middle, 4 tied maxima, 5 silence), partition %d", vh_fname (format), chans [c], vh_tname [t], sq, p) ;
+		if ((sq + p) % 5 == 2 && rep == 0) vh_sample ("%s ch=%d: %s writes, sequence %d (0 max at first frame, 1 last frame, 2 at the 2048-item staging boundary, 3 middle, 4 tied maxima, 5 silence), partition %d", vh_fname (format), chans [c], vh_tname [t], sq, p) ;
 		peak_case (format, chans [c], t, sq, p) ;
 		}
-	for (f = 0 ; f < vh_nfmts ; f++) for (c = 1 ; c <= 2 ; c++)
+	for (f = 0 ; f < vh_nfmts ; f++) for (c = 1 ; c <= (vh_thorough ? 4 : 2) ; c++) for (rep = 0 ; rep < (vh_thorough ? 40 : 8) ; rep++)
 	{	int format = vh_fmts [f].format ;
 		if (vh_fmts [f].major == SF_FORMAT_SD2 || !vh_accepts (format, c, 8000)) continue ;
-		if (!vh_case ("%s ch=%d CALC commands", vh_fname (format), c)) continue ;
-		vh_distinct (vh_fnv (0, &format, 4) ^ ((uint64_t) c << 33) ^ 0xCA1C) ;
+		if (!vh_case ("%s ch=%d CALC commands rep=%d", vh_fname (format), c, rep)) continue ;
+		vh_distinct (vh_fnv (0, &format, 4) ^ ((uint64_t) c << 33) ^ 0xCA1C ^ vh_rs) ;
 		calc_case (format, c) ;
 		}
 	return vh_finish () ;
